@@ -7,7 +7,10 @@
  * process and every run. The bytes carry no per-call state on purpose: threads
  * racing to fetch their keys all get the same answer. */
 #define _GNU_SOURCE
+#include <dlfcn.h>
+#include <stdarg.h>
 #include <stddef.h>
+#include <sys/syscall.h>
 #include <sys/types.h>
 
 static void fill(unsigned char *p, size_t len) {
@@ -27,4 +30,22 @@ ssize_t getrandom(void *buf, size_t len, unsigned int flags) {
 int getentropy(void *buf, size_t len) {
   fill((unsigned char *)buf, len);
   return 0;
+}
+
+/* The getrandom crate 0.2 (behind rand 0.8: thread_rng, secp256k1's auxiliary
+ * signing randomness) calls syscall(SYS_getrandom, ...) directly. Everything
+ * else is forwarded untouched. */
+long syscall(long number, ...) {
+  static long (*real)(long, ...) = 0;
+  va_list ap;
+  va_start(ap, number);
+  long a = va_arg(ap, long), b = va_arg(ap, long), c = va_arg(ap, long);
+  long d = va_arg(ap, long), e = va_arg(ap, long), f = va_arg(ap, long);
+  va_end(ap);
+  if (number == SYS_getrandom) {
+    fill((unsigned char *)a, (size_t)b);
+    return b;
+  }
+  if (!real) real = (long (*)(long, ...))dlsym(RTLD_NEXT, "syscall");
+  return real(number, a, b, c, d, e, f);
 }
